@@ -91,6 +91,10 @@ func inboundMappedKey(typ *schema.TypeStruct, stg schema.StructRepresentation_Ma
 			return field.Name()
 		}
 	}
+	if f := typ.Field(key); f != nil && stg.GetFieldKey(*f) != key {
+		// key is the type-level name of a renamed field; only its serial name is a key of the representation.
+		return ""
+	}
 	return key // fallback to the same key
 }
 
